@@ -1104,6 +1104,13 @@ From NV Require Import Scalar.Ops Model.Common Model.Basis Model.Knots Model.Kno
   Proofs.GenTieLib Proofs.GenTieKnots Proofs.GenTieSpan Proofs.GenTieBasis Proofs.GenTieBasisOne
   Proofs.GenTieDersOne Proofs.GenTieDersLib Proofs.GenTieDers Proofs.GenTieKnotIns.
 Local Open Scope nat_scope.
+From NV Require Import Gen.PreludeExt Gen.LinalgMat Proofs.GenTieMat Proofs.GenTieMatSolve Proofs.GenTieBinom.
+From NV Require Import Gen.PreludeExt Gen.HelpersB Proofs.GenTieKnotRemove.
+From NV Require Import Gen.HelpersB Proofs.GenTieElev.
+From NV Require Import Model.Geom2D Model.Voxel Gen.PreludeExt Gen.LinalgGeom Gen.Voxelize Proofs.GenTieGeom Proofs.GenTieVoxel
+  Proofs.GenTieHull.
+From NV Require Import Model.Hull Gen.Utilities Proofs.GenTieBBox.
+From NV Require Import Model.Fit Gen.Fitting Proofs.GenTieFit.
 
 From NV Require Import Model.Derivs Proofs.GenTieDerivCpts.
 
@@ -1153,4 +1160,141 @@ Example C02_gen_nonvacuous :
     GOk [[[Some 2; Some 3]; [Some 4; Some 3]; [Some 5; Some 1]; [Some 6; Some 0]];
          [[Some 12; Some 0]; [Some 6; Some (-12)]; [Some 6; Some (-6)]; [None; None]]]%Q.
 Proof. vm_compute; reflexivity. Qed.
+
+From NV Require Import Model.KnotRefine Proofs.GenTieRefine.
+From NV Require Import Model.Eval Gen.Evaluators Proofs.GenTieEvalLib Proofs.GenTieEvalCurve Proofs.GenTieEvalSurf Proofs.GenTieEvalVol.
+
+From NV Require Import Model.Derivs Gen.HelpersC Proofs.GenTieBinom Proofs.GenTieBasisAll Proofs.GenTieEvalDerivCurve Proofs.GenTieEvalDerivCurve2.
+
+(* [G] helpers.basis_function_all: the source's (p+1) x (p+1) table with None below the diagonal = inj_bfall of the model's rows *)
+Theorem C02_gen_basis_function_all_R : forall (p : nat) (U : list R) (sp : nat) (u : R),
+  p <= sp + 1 -> sp + p < length U ->
+  HelpersC.basis_function_all Rops (Z.of_nat p) U (Z.of_nat sp) u = GOk (inj_bfall Rops p (Basis.basis_function_all Rops p U sp u)).
+Proof. exact basis_function_all_tie_R. Qed.
+Print Assumptions C02_gen_basis_function_all_R.
+
+(* [G] helpers.basis_function_all: the source's (p+1) x (p+1) table with None below the diagonal = inj_bfall of the model's rows *)
+Theorem C02_gen_basis_function_all_Q : forall (p : nat) (U : list Q) (sp : nat) (u : Q),
+  p <= sp + 1 -> sp + p < length U ->
+  HelpersC.basis_function_all Qops (Z.of_nat p) U (Z.of_nat sp) u = GOk (inj_bfall Qops p (Basis.basis_function_all Qops p U sp u)).
+Proof. exact basis_function_all_tie_Q. Qed.
+Print Assumptions C02_gen_basis_function_all_Q.
+
+(* [G] CurveEvaluator.derivatives (A3.2), any derivative order *)
+Theorem C02_gen_CurveEvaluator_derivatives_R : forall (dd : geomdata R) (p : nat) (U : list R) (P : list (list R)) (u : R) (order : nat),
+  curve_dd dd p U P -> p < length P -> length P + p <= length U ->
+  Evaluators.CurveEvaluator_derivatives Rops (Helpers.find_span_linear Rops) dd u (Z.of_nat order) =
+  GOk (curve_derivs Rops (Z.to_nat (eval_dim dd)) p U P u order).
+Proof. exact CurveEvaluator_derivatives_tie_R. Qed.
+Print Assumptions C02_gen_CurveEvaluator_derivatives_R.
+
+(* [G] CurveEvaluator.derivatives (A3.2), any derivative order *)
+Theorem C02_gen_CurveEvaluator_derivatives_Q : forall (dd : geomdata Q) (p : nat) (U : list Q) (P : list (list Q)) (u : Q) (order : nat),
+  curve_dd dd p U P -> p < length P -> length P + p <= length U ->
+  Evaluators.CurveEvaluator_derivatives Qops (Helpers.find_span_linear Qops) dd u (Z.of_nat order) =
+  GOk (curve_derivs Qops (Z.to_nat (eval_dim dd)) p U P u order).
+Proof. exact CurveEvaluator_derivatives_tie_Q. Qed.
+Print Assumptions C02_gen_CurveEvaluator_derivatives_Q.
+
+(* [G] CurveEvaluatorRational.derivatives (A4.2 on the derivatives of the weighted curve) *)
+Theorem C02_gen_CurveEvaluatorRational_derivatives_R : forall (dd : geomdata R) (p : nat) (U : list R) (P : list (list R)) (u : R) (order : nat),
+  curve_dd dd p U P -> p < length P -> length P + p <= length U ->
+  (1 <= eval_dim dd)%Z -> (forall pt, In pt P -> Z.of_nat (length pt) = eval_dim dd) ->
+  Evaluators.CurveEvaluatorRational_derivatives Rops (Helpers.find_span_linear Rops) dd u (Z.of_nat order) =
+  GOk (rat_curve_derivs Rops (curve_derivs Rops (Z.to_nat (eval_dim dd)) p U P u order) order).
+Proof. exact CurveEvaluatorRational_derivatives_tie_R. Qed.
+Print Assumptions C02_gen_CurveEvaluatorRational_derivatives_R.
+
+(* [G] CurveEvaluatorRational.derivatives (A4.2 on the derivatives of the weighted curve) *)
+Theorem C02_gen_CurveEvaluatorRational_derivatives_Q : forall (dd : geomdata Q) (p : nat) (U : list Q) (P : list (list Q)) (u : Q) (order : nat),
+  curve_dd dd p U P -> p < length P -> length P + p <= length U ->
+  (1 <= eval_dim dd)%Z -> (forall pt, In pt P -> Z.of_nat (length pt) = eval_dim dd) ->
+  Evaluators.CurveEvaluatorRational_derivatives Qops (Helpers.find_span_linear Qops) dd u (Z.of_nat order) =
+  GOk (rat_curve_derivs Qops (curve_derivs Qops (Z.to_nat (eval_dim dd)) p U P u order) order).
+Proof. exact CurveEvaluatorRational_derivatives_tie_Q. Qed.
+Print Assumptions C02_gen_CurveEvaluatorRational_derivatives_Q.
+
+(* [G] CurveEvaluator2.derivatives (A3.4: basis_function_all and the derivative control points of A3.3) *)
+Theorem C02_gen_CurveEvaluator2_derivatives_R : forall (dd : geomdata R) (p : nat) (U : list R) (P : list (list R)) (u : R) (order : nat),
+  curve_dd dd p U P -> p < length P -> length P + p <= length U -> (0 <= eval_dim dd)%Z ->
+  Evaluators.CurveEvaluator2_derivatives Rops (Helpers.find_span_linear Rops) dd u (Z.of_nat order) =
+  GOk (curve_derivs2 Rops (Z.to_nat (eval_dim dd)) p U P u order).
+Proof. exact CurveEvaluator2_derivatives_tie_R. Qed.
+Print Assumptions C02_gen_CurveEvaluator2_derivatives_R.
+
+(* [G] CurveEvaluator2.derivatives (A3.4: basis_function_all and the derivative control points of A3.3) *)
+Theorem C02_gen_CurveEvaluator2_derivatives_Q : forall (dd : geomdata Q) (p : nat) (U : list Q) (P : list (list Q)) (u : Q) (order : nat),
+  curve_dd dd p U P -> p < length P -> length P + p <= length U -> (0 <= eval_dim dd)%Z ->
+  Evaluators.CurveEvaluator2_derivatives Qops (Helpers.find_span_linear Qops) dd u (Z.of_nat order) =
+  GOk (curve_derivs2 Qops (Z.to_nat (eval_dim dd)) p U P u order).
+Proof. exact CurveEvaluator2_derivatives_tie_Q. Qed.
+Print Assumptions C02_gen_CurveEvaluator2_derivatives_Q.
+
+(* ---- derivatives of surfaces (Props/C02.v, Props/C17.v).  add to the Require line:  Proofs.GenTieEvalDerivSurf Proofs.GenTieEvalDerivSurfRat
+        Proofs.GenTieDerivSurfShape Proofs.GenTieEvalDerivSurf2.  surf_dd' = surf_dd without the sample sizes ---- *)
+From NV Require Import Proofs.GenTieEvalDerivSurf Proofs.GenTieEvalDerivSurfRat Proofs.GenTieEvalDerivSurf2.
+
+(* [G] SurfaceEvaluator.derivatives (A3.6 as written: the whole square 0..order x 0..order is computed), any derivative order *)
+Theorem C02_gen_SurfaceEvaluator_derivatives_R : forall (dd : geomdata R) (pu pv : nat) (Uu Uv : list R) (su sv : nat) (P : list (list R))
+    (u v : R) (order : nat),
+  surf_dd' dd pu pv Uu Uv su sv P ->
+  pu < su -> su + pu <= length Uu -> pv < sv -> sv + pv <= length Uv -> su * sv <= length P ->
+  Evaluators.SurfaceEvaluator_derivatives Rops (Helpers.find_span_linear Rops) dd [u; v] (Z.of_nat order) =
+  GOk (surface_derivs Rops (Z.to_nat (eval_dim dd)) pu pv Uu Uv su sv P u v order).
+Proof. exact SurfaceEvaluator_derivatives_tie_R. Qed.
+Print Assumptions C02_gen_SurfaceEvaluator_derivatives_R.
+
+(* [G] SurfaceEvaluator.derivatives (A3.6 as written: the whole square 0..order x 0..order is computed), any derivative order *)
+Theorem C02_gen_SurfaceEvaluator_derivatives_Q : forall (dd : geomdata Q) (pu pv : nat) (Uu Uv : list Q) (su sv : nat) (P : list (list Q))
+    (u v : Q) (order : nat),
+  surf_dd' dd pu pv Uu Uv su sv P ->
+  pu < su -> su + pu <= length Uu -> pv < sv -> sv + pv <= length Uv -> su * sv <= length P ->
+  Evaluators.SurfaceEvaluator_derivatives Qops (Helpers.find_span_linear Qops) dd [u; v] (Z.of_nat order) =
+  GOk (surface_derivs Qops (Z.to_nat (eval_dim dd)) pu pv Uu Uv su sv P u v order).
+Proof. exact SurfaceEvaluator_derivatives_tie_Q. Qed.
+Print Assumptions C02_gen_SurfaceEvaluator_derivatives_Q.
+
+(* [G] SurfaceEvaluatorRational.derivatives (A4.4 on the derivatives of the weighted surface) *)
+Theorem C02_gen_SurfaceEvaluatorRational_derivatives_R : forall (dd : geomdata R) (pu pv : nat) (Uu Uv : list R) (su sv : nat)
+    (P : list (list R)) (u v : R) (order : nat),
+  surf_dd' dd pu pv Uu Uv su sv P ->
+  pu < su -> su + pu <= length Uu -> pv < sv -> sv + pv <= length Uv -> su * sv <= length P ->
+  (1 <= eval_dim dd)%Z -> (forall pt, In pt P -> Z.of_nat (length pt) = eval_dim dd) ->
+  Evaluators.SurfaceEvaluatorRational_derivatives Rops (Helpers.find_span_linear Rops) dd [u; v] (Z.of_nat order) =
+  GOk (rat_surface_derivs Rops (Z.to_nat (eval_dim dd))
+         (surface_derivs Rops (Z.to_nat (eval_dim dd)) pu pv Uu Uv su sv P u v order) order).
+Proof. exact SurfaceEvaluatorRational_derivatives_tie_R. Qed.
+Print Assumptions C02_gen_SurfaceEvaluatorRational_derivatives_R.
+
+(* [G] SurfaceEvaluatorRational.derivatives (A4.4 on the derivatives of the weighted surface) *)
+Theorem C02_gen_SurfaceEvaluatorRational_derivatives_Q : forall (dd : geomdata Q) (pu pv : nat) (Uu Uv : list Q) (su sv : nat)
+    (P : list (list Q)) (u v : Q) (order : nat),
+  surf_dd' dd pu pv Uu Uv su sv P ->
+  pu < su -> su + pu <= length Uu -> pv < sv -> sv + pv <= length Uv -> su * sv <= length P ->
+  (1 <= eval_dim dd)%Z -> (forall pt, In pt P -> Z.of_nat (length pt) = eval_dim dd) ->
+  Evaluators.SurfaceEvaluatorRational_derivatives Qops (Helpers.find_span_linear Qops) dd [u; v] (Z.of_nat order) =
+  GOk (rat_surface_derivs Qops (Z.to_nat (eval_dim dd))
+         (surface_derivs Qops (Z.to_nat (eval_dim dd)) pu pv Uu Uv su sv P u v order) order).
+Proof. exact SurfaceEvaluatorRational_derivatives_tie_Q. Qed.
+Print Assumptions C02_gen_SurfaceEvaluatorRational_derivatives_Q.
+
+(* [G] SurfaceEvaluator2.derivatives (A3.8: basis_function_all and the derivative control points of A3.7; the triangle k + l <= order) *)
+Theorem C02_gen_SurfaceEvaluator2_derivatives_R : forall (dd : geomdata R) (pu pv : nat) (Uu Uv : list R) (su sv : nat) (P : list (list R))
+    (u v : R) (order : nat),
+  surf_dd' dd pu pv Uu Uv su sv P ->
+  pu < su -> su + pu <= length Uu -> pv < sv -> sv + pv <= length Uv -> su * sv <= length P -> (0 <= eval_dim dd)%Z ->
+  Evaluators.SurfaceEvaluator2_derivatives Rops (Helpers.find_span_linear Rops) dd [u; v] (Z.of_nat order) =
+  GOk (surface_derivs2 Rops (Z.to_nat (eval_dim dd)) pu pv Uu Uv su sv P u v order).
+Proof. exact SurfaceEvaluator2_derivatives_tie_R. Qed.
+Print Assumptions C02_gen_SurfaceEvaluator2_derivatives_R.
+
+(* [G] SurfaceEvaluator2.derivatives (A3.8: basis_function_all and the derivative control points of A3.7; the triangle k + l <= order) *)
+Theorem C02_gen_SurfaceEvaluator2_derivatives_Q : forall (dd : geomdata Q) (pu pv : nat) (Uu Uv : list Q) (su sv : nat) (P : list (list Q))
+    (u v : Q) (order : nat),
+  surf_dd' dd pu pv Uu Uv su sv P ->
+  pu < su -> su + pu <= length Uu -> pv < sv -> sv + pv <= length Uv -> su * sv <= length P -> (0 <= eval_dim dd)%Z ->
+  Evaluators.SurfaceEvaluator2_derivatives Qops (Helpers.find_span_linear Qops) dd [u; v] (Z.of_nat order) =
+  GOk (surface_derivs2 Qops (Z.to_nat (eval_dim dd)) pu pv Uu Uv su sv P u v order).
+Proof. exact SurfaceEvaluator2_derivatives_tie_Q. Qed.
+Print Assumptions C02_gen_SurfaceEvaluator2_derivatives_Q.
 
